@@ -91,6 +91,14 @@ add('C18', 'exploration', 'Hypothesis result sequences: PbnWriter -> PbnParser r
     'games one by one with the 15 mandatory tags and written values; every line <= 255 characters.',
     'Names limited to the property alphabet and to lengths that fit on a line.', '5/C18')
 
+add('C19', 'exploration', 'enumerated + Hypothesis builder->parser round trips; scripted-socket framing with generated chunking and end-of-stream faults',
+    'hypothesis-inprocess+sim-sessions',
+    'All calls x seats x case variants x alert suffixes and all cards x seats x notations x case variants are '
+    'enumerated; hands, case masks, message streams, chunkings and end-of-stream positions are generated; server-built '
+    'headers and Teams lines come from simulated sessions. A deterministic spin detector (1000 empty reads) replaces '
+    'any wall-clock timeout.',
+    'Alert suffix limited to the documented form; scripted socket models recv() returning b"" at end-of-stream.', '5/C19')
+
 NOT_APPLICABLE = []
 
 ENGINES = [
